@@ -143,7 +143,7 @@ Update == /\ pk # <<>>
 (* Optic.scale_system(s): radii, thicknesses (C07).  s is a positive integer *)
 (* here; dyadic fractions are exercised by the trace spec.                    *)
 ScaleF(sf, s) == [j \in 1..Len(sf) |->
-                    [sf[j] EXCEPT !.R = IF @ = INF THEN INF ELSE @ * s,
+                    [sf[j] EXCEPT !.R = IF @ \in {INF, -INF} THEN @ ELSE @ * s,
                                   !.z = IF @ \in {INF, -INF} THEN @ ELSE @ * s]]
 ScaleSystem(s) == /\ N >= 3
                   /\ \A j \in 1..N : surf[j].kind = "std"   \* documented to scale planes/conics only
